@@ -246,6 +246,25 @@ Theorem c02_container_erase : forall fresh s base k n,
 Proof. exact erase_full. Qed.
 Print Assumptions c02_container_erase.
 
+(* ======== wave 7: operator<< on a stream that carries format state ========
+   The stream operator is the insertion of the ToString() text as ONE string.  After every history, for
+   every stream width / fill / adjustment: the characters written are exactly ToString()'s, padded once
+   as a whole up to the width (so: exactly ToString() whenever the width does not exceed its length,
+   in particular for width 0), and the width is 0 afterwards.  No other stream state (base, showbase,
+   showpos, uppercase, precision, numeric locale) is an input of the model at all: the harness runs the
+   real operator on streams carrying such state and compares text and stream state after the call. *)
+Theorem c02_stream_text : forall fresh slots ops i w fl adj,
+  Forall op_ok ops ->
+  exists s, crun fresh (init_st slots) ops = Ok s /\
+    (is_live s i = true ->
+     exists text, cquery s (QToString i) = Ok (ABytes text) /\
+       cquery s (QStream i w fl adj) = Ok (ABytes (pad_text w fl adj text)) /\
+       (w <= len text -> cquery s (QStream i w fl adj) = Ok (ABytes text)) /\
+       len (pad_text w fl adj text) = N.max w (len text) /\
+       width_after_insert w = 0).
+Proof. exact stream_text_full. Qed.
+Print Assumptions c02_stream_text.
+
 (* ---- the hypotheses are satisfiable, the model computes *)
 Example c02_ex_inv : inv (init_st 4).
 Proof. exact (inv_init 4). Qed.
@@ -301,3 +320,10 @@ Example c02_ex_expressions :
     abs s = [Some (Some [1; 2; 3; 4]); Some (Some [77; 2; 3; 4]); Some (Some [1; 2; 3; 200]); None;
              Some (Some [5; 2; 3; 4]); Some (Some [1; 2; 3; 4]); None; None].
 Proof. eexists. split; vm_compute; reflexivity. Qed.
+
+(* "0,9,10,255" through a stream with width 14, fill '*': right adjusted, left adjusted, and width 3 *)
+Example c02_ex_stream :
+  pad_text 14 42 0 (join_dec [0; 9; 10; 255]) = [42; 42; 42; 42; 48; 44; 57; 44; 49; 48; 44; 50; 53; 53] /\
+  pad_text 14 42 1 (join_dec [0; 9; 10; 255]) = [48; 44; 57; 44; 49; 48; 44; 50; 53; 53; 42; 42; 42; 42] /\
+  pad_text 3 42 0 (join_dec [0; 9; 10; 255]) = join_dec [0; 9; 10; 255] /\ pad_text 2 46 1 [] = [46; 46].
+Proof. repeat split; vm_compute; reflexivity. Qed.
